@@ -19,12 +19,18 @@ where
     serde_bencode::from_bytes(bytes)
 }
 
+/// Maximum nesting of lists and dictionaries we are willing to decode. KRPC messages (and their
+/// known extensions) nest at most four levels deep; the decoder recurses once per level.
+const MAX_DEPTH: usize = 32;
+
 /// `serde_bencode` allocates the declared length of a byte string before it reads it, so a
 /// datagram of a dozen bytes can make it allocate gigabytes, panic with a capacity overflow or
 /// abort the process. Walk over the tokens of the first value the same way the decoder does and
 /// reject a string whose declared length exceeds the remaining input (the decoder would fail
-/// with `EndOfStream` at that very token, after the allocation). Anything else that is wrong
-/// with the input is left for the decoder to report.
+/// with `EndOfStream` at that very token, after the allocation). The decoder also recurses once
+/// per nesting level, and a 1500 byte datagram can nest deep enough to overflow the stack of the
+/// task that decodes it, so nesting beyond `MAX_DEPTH` is rejected as well. Anything else that is
+/// wrong with the input is left for the decoder to report.
 fn check_framing(bytes: &[u8]) -> Result<(), Error> {
     let mut depth = 0usize;
     let mut pos = 0;
@@ -33,7 +39,13 @@ fn check_framing(bytes: &[u8]) -> Result<(), Error> {
         pos += 1;
 
         match byte {
-            b'd' | b'l' => depth += 1,
+            b'd' | b'l' => {
+                depth += 1;
+
+                if depth > MAX_DEPTH {
+                    return Err(Error::InvalidValue("nested too deeply".to_owned()));
+                }
+            }
             b'e' => depth = depth.saturating_sub(1),
             b'i' => match bytes[pos..].iter().position(|b| *b == b'e') {
                 Some(len) => pos += len + 1,
